@@ -30,6 +30,10 @@ type c17Case struct {
 	Cache   int    `json:"route_cache,omitempty"`           // >0: caching with that capacity and a second mount of ANOTHER root; requests alternate between the mounts
 	First   int    `json:"first_token"`
 	Depth   int    `json:"max_tokens"`
+	// Rel != "": the root is given as a RELATIVE path (spelled Rel) and the working directory / the other mounts are
+	// arranged as Scenario says; everything that is not under <cwd>/pub at the time of the probes carries the marker
+	Rel      string `json:"relative_root,omitempty"`
+	Scenario string `json:"scenario,omitempty"` // two-mounts | chdir-between-routers | chdir-same-router
 }
 
 var (
@@ -68,6 +72,33 @@ func c17Setup() {
 			w(f, c)
 			c17Inside[c] = true
 		}
+		// relative roots: two sites with the same layout (site1 is "outside" while the process works in site2) and a
+		// sibling "pub" directory one level up
+		for _, f := range []string{"rel/site2/pub/a.css", "rel/site2/pub/sub/b.js", "rel/site2/pub/n.txt"} {
+			c := "INSIDE:" + f
+			w(f, c)
+			c17Inside[c] = true
+		}
+		for _, f := range []string{"rel/site1/pub/a.css", "rel/site1/pub/secret.css", "rel/site1/pub/sub/b.js", "rel/pub/a.css", "rel/pub/secret.css", "rel/site2/secret.css", "rel/site2/.pub/a.css", "rel/site2/.pub/secret.css"} {
+			w(f, c17Marker+":"+f)
+		}
+		// process history: before any case runs, static mounts with relative roots were registered (and used) while the
+		// process worked in site1 - whatever the library remembers process-wide from then must not matter later
+		if old, err := os.Getwd(); err == nil {
+			if os.Chdir(filepath.Join(base, "rel", "site1")) == nil {
+				r := rux.New()
+				r.StaticDir("/warm", "pub")
+				r.StaticFiles("/warm2", "pub", "css|js")
+				r.StaticFile("/warm3", "pub/a.css")
+				r.StaticFS("/warm4", http.Dir("pub"))
+				for _, p := range []string{"/warm/a.css", "/warm2/a.css", "/warm3", "/warm4/a.css"} {
+					_ = try(func() {
+						r.ServeHTTP(httptest.NewRecorder(), &http.Request{Method: "GET", URL: &url.URL{Path: p}, Header: http.Header{}, Host: "x"})
+					})
+				}
+				_ = os.Chdir(old)
+			}
+		}
 		w("SECRET.txt", c17Marker+":secret")
 		w("rootx/s.css", c17Marker+":sibling")
 		w("rootx/a.txt", c17Marker+":sibling-a")
@@ -83,6 +114,13 @@ func C17Cleanup() {
 }
 
 func c17Gen(tier string, emit func(c17Case)) {
+	for _, h := range []string{"StaticDir", "StaticFS", "StaticFiles", "StaticFile"} {
+		for _, rel := range []string{"pub", "./pub", "pub/", "../site2/pub", ".//pub"} {
+			for _, sc := range []string{"two-mounts", "chdir-between-routers", "chdir-same-router"} {
+				emit(c17Case{Handler: h, Prefix: "/assets", Rel: rel, Scenario: sc, Depth: 2})
+			}
+		}
+	}
 	depth := 3
 	if tier == "thorough" {
 		depth = 4
@@ -107,6 +145,113 @@ func c17Gen(tier string, emit func(c17Case)) {
 	}
 }
 
+// c17RunRel: relative roots. The probes run with the working directory <sandbox>/rel/site2; the root of the mount under
+// test is <sandbox>/rel/site2/pub however it is spelled, whatever was registered before and wherever the process worked then.
+func c17RunRel(c c17Case, st *fw.Stats, add func(sig, msg string)) {
+	old, err := os.Getwd()
+	if err != nil {
+		panic(err)
+	}
+	defer func() { _ = os.Chdir(old) }()
+	site1, site2 := filepath.Join(c17Base, "rel", "site1"), filepath.Join(c17Base, "rel", "site2")
+	cd := func(d string) {
+		if err := os.Chdir(d); err != nil {
+			panic(err)
+		}
+	}
+	mount := func(r *rux.Router, prefix, root string) {
+		switch c.Handler {
+		case "StaticDir":
+			r.StaticDir(prefix, root)
+		case "StaticFS":
+			r.StaticFS(prefix, http.Dir(root))
+		case "StaticFiles":
+			r.StaticFiles(prefix, root, "css|js")
+		case "StaticFile":
+			r.StaticFile(prefix, filepath.Join(root, "a.css"))
+		}
+	}
+	get := func(r *rux.Router, p string) *httptest.ResponseRecorder {
+		w := httptest.NewRecorder()
+		_ = try(func() {
+			r.ServeHTTP(w, &http.Request{Method: "GET", URL: &url.URL{Path: p}, Header: http.Header{}, Host: "x"})
+		})
+		return w
+	}
+	var r *rux.Router
+	switch c.Scenario {
+	case "two-mounts":
+		// other mounts of the same router serve directories whose names differ from this root's only by leading dots and slashes
+		cd(site2)
+		r = rux.New()
+		r.StaticDir("/shared", "../pub")
+		r.StaticDir("/hidden", ".pub")
+		r.StaticFiles("/shared2", "../pub", "css|js")
+		get(r, "/shared/a.css")
+		mount(r, c.Prefix, c.Rel)
+	case "chdir-between-routers":
+		// another router was set up (and used) while the process worked in another directory of the same layout
+		cd(site1)
+		r1 := rux.New()
+		mount(r1, c.Prefix, "pub")
+		r1.StaticFile("/one", "pub/a.css")
+		get(r1, c.Prefix+"/a.css")
+		get(r1, "/one")
+		cd(site2)
+		r = rux.New()
+		mount(r, c.Prefix, c.Rel)
+	default:
+		cd(site1)
+		r = rux.New()
+		r.StaticDir("/one", "pub")
+		r.StaticFiles("/one2", "pub", "css|js")
+		get(r, "/one/a.css")
+		cd(site2)
+		mount(r, c.Prefix, c.Rel)
+	}
+	desc := fmt.Sprintf("%s(prefix %q, relative root %q) registered with working directory <sandbox>/rel/site2, scenario %s", c.Handler, c.Prefix, c.Rel, c.Scenario)
+	toks := []string{"a.css", "secret.css", "sub", "b.js", "n.txt", "..", ".", "pub", ".pub", "site1", "%2e%2e", ""}
+	ok200 := 0
+	var rec func(cur string, n int)
+	rec = func(cur string, n int) {
+		raw := c.Prefix + cur
+		if dec, err := url.PathUnescape(raw); err == nil {
+			st.Evals++
+			st.Nontrivial++
+			w := httptest.NewRecorder()
+			req := &http.Request{Method: "GET", URL: &url.URL{Path: dec, RawPath: raw}, Header: http.Header{}, Host: "x"}
+			if pv := try(func() { r.ServeHTTP(w, req) }); pv != nil {
+				add("static:panic", fmt.Sprintf("%s: GET %q panicked: %v", desc, raw, pv))
+			} else {
+				body := w.Body.String()
+				listing := strings.HasPrefix(body, "<pre>") || strings.HasPrefix(body, "<!doctype html>")
+				switch {
+				case strings.Contains(body, c17Marker):
+					add("static:outside-content:relative-root", fmt.Sprintf("%s: GET %q returned content from outside the root: %q", desc, raw, trunc(body)))
+				case strings.Contains(body, `href="secret.css"`):
+					add("static:outside-listing:relative-root", fmt.Sprintf("%s: GET %q lists a directory outside the root: %q", desc, raw, trunc(body)))
+				case w.Code == 200 && !listing && !c17Inside[body]:
+					add("static:unknown-body", fmt.Sprintf("%s: GET %q answered 200 with a body that is not a file under the root: %q", desc, raw, trunc(body)))
+				case w.Code == 200 && !listing:
+					ok200++
+				}
+			}
+		}
+		if n == c.Depth {
+			return
+		}
+		for _, t := range toks {
+			rec(cur+"/"+t, n+1)
+		}
+	}
+	rec("", 0)
+	if ok200 == 0 {
+		// the mount must actually serve its own files (otherwise "nothing leaks" would be vacuous)
+		add("static:relative-root-serves-nothing", fmt.Sprintf("%s: no request was answered with a file of the root", desc))
+	}
+	st.Inc("status_200", int64(ok200))
+}
+
 func c17Run(c c17Case, st *fw.Stats) []fw.Viol {
 	c17Setup()
 	var vs []fw.Viol
@@ -114,6 +259,10 @@ func c17Run(c c17Case, st *fw.Stats) []fw.Viol {
 		if len(vs) < 6 {
 			vs = append(vs, fw.Viol{Sig: sig, Msg: msg})
 		}
+	}
+	if c.Rel != "" {
+		c17RunRel(c, st, add)
+		return vs
 	}
 	root := filepath.Join(c17Base, "root")
 	if c.Global {
@@ -254,7 +403,7 @@ func c17Run(c c17Case, st *fw.Stats) []fw.Viol {
 var c17Spec = fw.Spec[c17Case]{
 	ID:    "C17",
 	Level: "model_checking",
-	Rule: "complete enumeration: all request paths of <=3 (thorough 4) tokens over 23 tokens {.., ., empty, sub, a.txt, b.css, SECRET.txt, rootx, %2e%2e, ..%2f, %2f, \\, %5c.., %00, 'a.txt.', '.../', s.css, ..%5c, c.js, e.scss, m.mjs, acss, x.css.bak} after each mount prefix, sent with URL.RawPath = the raw string and URL.Path = its decoding, for StaticDir / StaticFS(http.Dir) / StaticFiles(css|js) / StaticFile x prefixes {/d, /deep/d, /root (= the directory's own name)} x both UseEncodedPath settings (and with a global path variable named like the handlers' internal variable), against a real sandbox tree with marked files outside the root (parent directory, name-prefix sibling 'rootx'); " +
+	Rule: "complete enumeration: all request paths of <=3 (thorough 4) tokens over 23 tokens {.., ., empty, sub, a.txt, b.css, SECRET.txt, rootx, %2e%2e, ..%2f, %2f, \\, %5c.., %00, 'a.txt.', '.../', s.css, ..%5c, c.js, e.scss, m.mjs, acss, x.css.bak} after each mount prefix, sent with URL.RawPath = the raw string and URL.Path = its decoding, for StaticDir / StaticFS(http.Dir) / StaticFiles(css|js) / StaticFile x prefixes {/d, /deep/d, /root (= the directory's own name)} x both UseEncodedPath settings (and with a global path variable named like the handlers' internal variable), against a real sandbox tree with marked files outside the root (parent directory, name-prefix sibling 'rootx'); plus relative roots in 5 spellings x 4 handlers x 3 arrangements (other mounts whose directory names differ by leading dots / slashes; another router or another mount registered while the process worked in a directory of the same layout) probed with all paths of <=2 tokens over 12 tokens; " +
 		"oracle: no body carries an outside marker or lists an outside directory, every 200 body is a file under the root, StaticFiles answers 200 only for allowed extensions, StaticFile only its file; non-trivial = a path containing a dot-dot in some encoding",
 	Assume: []string{"relative to the sandbox tree and the OS / file system the check runs on", "net/http's FileServer is part of the implementation under test, not of the oracle"},
 	Bounds: func(tier string) map[string]any {
